@@ -278,10 +278,10 @@ def _inline(h: _Helper, call: ast.Call, stmt: ast.stmt, lst: list, k: int, recv:
         else:
             return False
         tgt = ast.Name(id=rename[p.arg], ctx=ast.Store())
+        asg = ast.Assign(targets=[tgt], value=v)
         if p.annotation is not None:
-            pre.append(ast.AnnAssign(target=tgt, annotation=copy.deepcopy(p.annotation), value=v, simple=1))
-        else:
-            pre.append(ast.Assign(targets=[tgt], value=v))
+            asg._ann = copy.deepcopy(p.annotation)  # type: ignore[attr-defined]
+        pre.append(asg)
     # body
     body = copy.deepcopy(fn.body)
     if body and isinstance(body[0], ast.Expr) and isinstance(body[0].value, ast.Constant) and isinstance(body[0].value.value, str):
@@ -544,6 +544,14 @@ def absorb_helpers(trees: dict[str, ast.Module], keep: Iterable[str] = ()) -> di
 # --------------------------------------------------------------------------------------------------------------------------
 
 
+def _mentions(part: ast.AST, acc: ast.AST) -> bool:
+    """Does expression `part` read the accumulator `acc` (a Name or an attribute chain)?"""
+    if isinstance(acc, ast.Name):
+        return any(isinstance(n, ast.Name) and n.id == acc.id for n in ast.walk(part))
+    accs = ast.unparse(acc)
+    return any(isinstance(n, ast.Attribute) and ast.unparse(n) == accs for n in ast.walk(part))
+
+
 def _acc_loop(st: ast.stmt) -> Optional[tuple[str, ast.expr, ast.expr, list[ast.comprehension]]]:
     """`for x in it: [if c:]* acc.append(e)` -> (method, acc expr, element expr, generators)"""
     if not isinstance(st, ast.For) or st.orelse:
@@ -567,17 +575,36 @@ def _acc_loop(st: ast.stmt) -> Optional[tuple[str, ast.expr, ast.expr, list[ast.
             and len(s.value.args) == 1 and not s.value.keywords and isinstance(s.value.func.value, (ast.Name, ast.Attribute)):
         acc = s.value.func.value
         # the accumulator must not be read by the loop itself
-        accs = ast.unparse(acc)
         for g in gens:
             for part in [g.iter] + g.ifs:
-                if accs in ast.unparse(part):
+                if _mentions(part, acc):
                     return None
-        if accs in ast.unparse(s.value.args[0]):
+        if _mentions(s.value.args[0], acc):
             return None
-        for g in gens:
-            if any(isinstance(n, ast.NamedExpr) for part in [g.iter] + g.ifs for n in ast.walk(part)):
-                return None
+        # (a walrus in a filter binds in the enclosing function in both spellings, so it does not prevent folding)
         return s.value.func.attr, acc, s.value.args[0], gens
+    if isinstance(s, ast.Assign) and len(s.targets) == 1 and isinstance(s.targets[0], ast.Subscript) and isinstance(s.targets[0].value, (ast.Name, ast.Attribute)) and not isinstance(s.targets[0].slice, ast.Slice):
+        acc = s.targets[0].value
+        for g in gens:
+            for part in [g.iter] + g.ifs:
+                if _mentions(part, acc):
+                    return None
+        if _mentions(s.value, acc) or _mentions(s.targets[0].slice, acc):
+            return None
+        return "setitem", acc, (s.targets[0].slice, s.value), gens
+    return None
+
+
+def _empty_init(st: ast.stmt) -> Optional[tuple[str, str]]:
+    """`x = []` / `x = list()` / `x = {}` / `x = dict()` / `x = set()` -> (name, kind)"""
+    if isinstance(st, ast.Assign) and len(st.targets) == 1 and isinstance(st.targets[0], ast.Name):
+        v = st.value
+        if isinstance(v, ast.List) and not v.elts:
+            return st.targets[0].id, "list"
+        if isinstance(v, ast.Dict) and not v.keys:
+            return st.targets[0].id, "dict"
+        if isinstance(v, ast.Call) and isinstance(v.func, ast.Name) and not v.args and not v.keywords and v.func.id in ("list", "dict", "set"):
+            return st.targets[0].id, v.func.id
     return None
 
 
@@ -591,7 +618,7 @@ def fold_accumulator_loops(tree: ast.Module) -> int:
                 m = _acc_loop(st)
                 if m is not None:
                     meth, acc, elt, gens = m
-                    comp: ast.expr = ast.ListComp(elt=elt, generators=gens)
+                    comp: ast.expr = ast.DictComp(key=elt[0], value=elt[1], generators=gens) if meth == "setitem" else ast.ListComp(elt=elt, generators=gens)
                     newcall = ast.Expr(value=ast.Call(func=ast.Attribute(value=acc, attr="extend" if meth == "append" else "update", ctx=ast.Load()), args=[comp], keywords=[]))
                     ast.copy_location(newcall, st)
                     ast.copy_location(newcall.value, st)
@@ -610,6 +637,29 @@ def fold_accumulator_loops(tree: ast.Module) -> int:
                     ast.copy_location(newcall.value.func, st)
                     lst[i] = newcall
                     n += 1
+                i += 1
+            # `x = []` directly followed by `x.extend([comprehension])` is `x = [comprehension]` (same for {} / update, set() / update)
+            i = 0
+            while i + 1 < len(lst):
+                init = _empty_init(lst[i])
+                nxt = lst[i + 1]
+                if init and isinstance(nxt, ast.Expr) and isinstance(nxt.value, ast.Call) and isinstance(nxt.value.func, ast.Attribute) and isinstance(nxt.value.func.value, ast.Name) \
+                        and nxt.value.func.value.id == init[0] and len(nxt.value.args) == 1 and not nxt.value.keywords:
+                    name, kind = init
+                    arg = nxt.value.args[0]
+                    meth = nxt.value.func.attr
+                    new_val = None
+                    if kind == "list" and meth == "extend" and isinstance(arg, ast.ListComp) and name not in {x.id for x in ast.walk(arg) if isinstance(x, ast.Name)}:
+                        new_val = arg
+                    elif kind == "dict" and meth == "update" and isinstance(arg, ast.DictComp) and name not in {x.id for x in ast.walk(arg) if isinstance(x, ast.Name)}:
+                        new_val = arg
+                    elif kind == "set" and meth == "update" and isinstance(arg, ast.ListComp) and name not in {x.id for x in ast.walk(arg) if isinstance(x, ast.Name)}:
+                        new_val = ast.copy_location(ast.SetComp(elt=arg.elt, generators=arg.generators), arg)
+                    if new_val is not None:
+                        lst[i].value = new_val
+                        del lst[i + 1]
+                        n += 1
+                        continue
                 i += 1
     ast.fix_missing_locations(tree)
     return n
@@ -634,3 +684,72 @@ def plain_assignments(tree: ast.Module) -> int:
                     lst[i] = new
                     n += 1
     return n
+
+
+# --------------------------------------------------------------------------------------------------------------------------
+# N4 named constants
+# --------------------------------------------------------------------------------------------------------------------------
+
+
+def _literal(v: ast.AST) -> bool:
+    if isinstance(v, ast.Constant) and isinstance(v.value, (str, int, float)) and not isinstance(v.value, bool):
+        return True
+    return isinstance(v, (ast.Tuple, ast.List, ast.Set)) and bool(v.elts) and all(isinstance(e, ast.Constant) and isinstance(e.value, (str, int, float)) for e in v.elts)
+
+
+def inline_constants(trees: dict[str, ast.Module]) -> int:
+    """A module-level name bound once to a literal (string, number, or tuple/list/set of them) is replaced by the literal wherever a
+    function reads it (in its own module or through `from M import NAME`); literal tuples / sets that are only iterated or tested for
+    membership are spelled as lists.  `x in ("a", "b")`, `x in ["a", "b"]` and `x in NAMES` are then one construct."""
+    consts: dict[tuple[str, str], ast.AST] = {}
+    for modname, tree in trees.items():
+        counts: dict[str, int] = {}
+        for n in ast.walk(tree):
+            if isinstance(n, ast.Name) and isinstance(n.ctx, (ast.Store, ast.Del)):
+                counts[n.id] = counts.get(n.id, 0) + 1
+            elif isinstance(n, ast.Global):
+                for nm in n.names:
+                    counts[nm] = counts.get(nm, 0) + 2
+        for st in tree.body:
+            if isinstance(st, ast.Assign) and len(st.targets) == 1 and isinstance(st.targets[0], ast.Name) and _literal(st.value) and counts.get(st.targets[0].id) == 1:
+                consts[(modname, st.targets[0].id)] = st.value
+    n_repl = 0
+    for modname, tree in trees.items():
+        visible: dict[str, ast.AST] = {nm: v for (m, nm), v in consts.items() if m == modname}
+        for st in tree.body:
+            if isinstance(st, ast.ImportFrom) and st.level == 0 and st.module:
+                for al in st.names:
+                    if (st.module, al.name) in consts:
+                        visible[al.asname or al.name] = consts[(st.module, al.name)]
+        if not visible:
+            continue
+        for fn in ast.walk(tree):
+            if not isinstance(fn, (ast.FunctionDef, ast.AsyncFunctionDef)):
+                continue
+            bound = _bound_names(fn)
+            use = {k: v for k, v in visible.items() if k not in bound}
+            if not use:
+                continue
+
+            class Sub(ast.NodeTransformer):
+                def visit_Name(self, node):
+                    nonlocal n_repl
+                    if isinstance(node.ctx, ast.Load) and node.id in use:
+                        n_repl += 1
+                        return ast.copy_location(copy.deepcopy(use[node.id]), node)
+                    return node
+
+            fn.body = [Sub().visit(s) for s in fn.body]
+    # canonical container spelling for literal collections that are only iterated / searched
+    for tree in trees.values():
+        for n in ast.walk(tree):
+            spots = []
+            if isinstance(n, ast.Compare):
+                for i, (op, c) in enumerate(zip(n.ops, n.comparators)):
+                    if isinstance(op, (ast.In, ast.NotIn)) and isinstance(c, (ast.Tuple, ast.Set)) and _literal(c):
+                        n.comparators[i] = ast.copy_location(ast.List(elts=c.elts, ctx=ast.Load()), c)
+            elif isinstance(n, (ast.For, ast.comprehension)) and isinstance(n.iter, ast.Tuple) and _literal(n.iter):
+                n.iter = ast.copy_location(ast.List(elts=n.iter.elts, ctx=ast.Load()), n.iter)
+    for tree in trees.values():
+        ast.fix_missing_locations(tree)
+    return n_repl
